@@ -31,7 +31,7 @@ func VBool(b bool) Val  { if b { return VI(1) }; return VI(0) }
 func VOk(v Val) Val     { return VL(VI(0), v) }
 func VErr(code int) Val { return VL(VI(1), VI(int64(code))) }
 func VPanic() Val       { return VL(VI(2)) }
-func VBad() Val         { return VL(VI(9)) }
+func VBad() Val         { return VL(VI(-9999)) }
 func VOpt(ok bool, v Val) Val { if ok { return VL(v) }; return VL() }
 
 func (v Val) U() uint64 { return v.I.Uint64() }
@@ -170,9 +170,9 @@ func main() {
 		toks := strings.Fields(bracketSpacer.Replace(in.Text()))
 		sb.Reset()
 		if len(toks) == 0 {
-			sb.WriteString("[8]")
+			sb.WriteString("[-8888]")
 		} else if f, ok := registry[toks[0]]; !ok {
-			sb.WriteString("[8]")
+			sb.WriteString("[-8888]")
 		} else {
 			var args []Val
 			bad := false
@@ -189,7 +189,7 @@ func main() {
 				}
 			}()
 			if bad {
-				sb.WriteString("[9]")
+				sb.WriteString("[-9999]")
 			} else {
 				// flush earlier replies before a call that may end the process
 				out.Flush()
